@@ -332,9 +332,9 @@ def r5(ctx):
 
 
 def r6(ctx):
-    from .c10 import r4_table_needs_disjoint_keys
+    from .c10 import r4_table_laws
 
-    r4_table_needs_disjoint_keys(ctx)
+    r4_table_laws(ctx)
 
 
 def r7(ctx):
